@@ -51,13 +51,15 @@ CHECKS = {
         'level_note': 'Trusted base: the labelled exception families are the harness author\'s reading of the lists in '
                       'hailtop/utils/utils.py (status codes, errnos, exception classes, __cause__ chains of depth <= 2); '
                       'exception classes of botocore/requests/urllib3/aiodocker/google are import stubs here and are not '
-                      'exercised; sync_retry_transient_errors and gear.database.retry_transient_mysql_errors are not '
-                      'covered by this scenario. Back-off is checked to 2 us.',
+                      'exercised; sync_retry_transient_errors runs with time.sleep replaced by a recorder; '
+                      'gear.database.retry_transient_mysql_errors is not covered by this scenario. Back-off is checked '
+                      'to 2 us.',
         'scenarios': [{'module': 'worlds.prims.retry', 'quick': 40000, 'thorough': 2500000}],
         'expected_probes': ['limited_sixth_failure_raised', 'limited_within_five_retried', 'chained_cause_transient',
                             'delay_capped', 'delay_pinned_to_max', 'rate_limit_retried', 'permanent_after_retries',
                             'permanent_raised_first_try', 'success_after_retries', 'long_sequence',
                             'cancelled_error_from_callable', 'outer_cancel_during_backoff',
-                            'transient_and_limited_after_five', 'context_only_not_retried', 'direct_delay_probe'],
+                            'transient_and_limited_after_five', 'context_only_not_retried', 'direct_delay_probe',
+                            'chained_rate_limit_retried', 'sync_helper'],
     },
 }
